@@ -56,7 +56,7 @@ type KnownFinding struct {
 
 func main() {
 	if len(os.Args) < 2 {
-		fmt.Fprintln(os.Stderr, "usage: symgo check <ID> <quick|thorough> | run <pkgdir> <Fn> [k=v...] | selftest")
+		fmt.Fprintln(os.Stderr, "usage: symgo check <ID> <quick|thorough> | replay <replays/ID/file.json> | run <pkgdir> <Fn> [k=v...] | selftest")
 		os.Exit(2)
 	}
 	if v := os.Getenv("VERIF_ROOT"); v != "" {
